@@ -217,12 +217,12 @@ pub fn execute(case: &Case) -> Exec {
         }
         _ => {
             let t = std::time::Instant::now();
-            let h = world::run_cli(&case.scn);
+            let (h, cpu_us) = world::run_cli_cpu(&case.scn);
             let wall_us = t.elapsed().as_micros() as u64;
             let alts = case.alts.iter().map(|a| world::run_cli(&a.scn)).collect();
             let parser_panics =
                 if case.parser_inputs.is_empty() { vec![] } else { crate::c15::direct_parsers(&case.parser_inputs) };
-            Exec { h, alts, multi: None, parser_panics, wall_us, cpu_us: 0, alt_cpu_us: vec![] }
+            Exec { h, alts, multi: None, parser_panics, wall_us, cpu_us, alt_cpu_us: vec![] }
         }
     }
 }
